@@ -53,14 +53,36 @@ def selftest(pid, mod, chk):
     mutants = [m for m in json.loads(p.read_text())['mutants'] if pid in m['expect']]
     base_keys = {o['key'] for o in chk.obs if not o['ok']}
     _ST = (pid, mod.__name__, base_keys)
+    # the replay is bounded in time (VERIF_SELFTEST_BUDGET seconds, default 1200): on a small machine the variants that
+    # were not reached are listed as not replayed - that is not a failure, the check of the tree itself is complete
+    import time
+
+    budget = float(os.environ.get('VERIF_SELFTEST_BUDGET', '1200') or 1200)
+    t0 = time.time()
+    res = []
     try:
-        with mp.get_context('fork').Pool(min(16, max(1, len(mutants)))) as pool:
-            res = pool.map(_st_job, mutants)
+        pool = mp.get_context('fork').Pool(min(16, max(1, len(mutants))))
+        try:
+            it = pool.imap_unordered(_st_job, mutants)
+            for _ in mutants:
+                try:
+                    res.append(it.next(timeout=max(1.0, budget - (time.time() - t0))))
+                except mp.TimeoutError:
+                    break
+        finally:
+            pool.terminate()
+            pool.join()
     except Exception:
-        res = [_st_job(m) for m in mutants]
+        if not res:
+            for m in mutants:
+                if time.time() - t0 > budget:
+                    break
+                res.append(_st_job(m))
+    done = {n for n, _ in res}
+    skipped = [m['name'] for m in mutants if m['name'] not in done]
     missed = [n for n, r in res if r == 'MISSED']
-    chk.extra['selftest'] = {'variants_replayed': len(res), 'reported': sum(1 for _, r in res if r == 'reported'), 'stale_context': [n for n, r in res if r == 'stale'], 'missed': missed}
-    print(f"selftest {pid}: {len(res)} recorded variants, {chk.extra['selftest']['reported']} reported, {len(chk.extra['selftest']['stale_context'])} stale, {len(missed)} missed")
+    chk.extra['selftest'] = {'variants_replayed': len(res), 'reported': sum(1 for _, r in res if r == 'reported'), 'stale_context': [n for n, r in res if r == 'stale'], 'missed': missed, 'not_replayed_time_budget': skipped}
+    print(f"selftest {pid}: {len(res)} recorded variants, {chk.extra['selftest']['reported']} reported, {len(chk.extra['selftest']['stale_context'])} stale, {len(missed)} missed" + (f', {len(skipped)} not replayed (time budget)' if skipped else ''))
     if missed:
         raise core.AnalysisError(f'self-test: variants that this check used to report are no longer reported: {missed}')
 
